@@ -28,7 +28,9 @@ type rtStore struct {
 	lastCas   atomic.Value
 	// the k-th CAS (holdAt, 1-based) is kept in flight until `resume` is closed, then fails transiently
 	holdAt  int32
-	reached chan struct{}
+	// holdApplied: the held call is APPLIED first and its (successful) answer delivered after `resume`
+	holdApplied bool
+	reached     chan struct{}
 	resume  chan struct{}
 	mu      sync.Mutex
 	okBy    map[string][]time.Time // Locker (receiver pointer of supportTimeout) -> times of its successful renewals
@@ -56,6 +58,12 @@ func (s *rtStore) CasByVersion(ctx context.Context, r kvs.Record) (kvs.Record, e
 	n := atomic.AddInt32(&s.casCalls, 1)
 	s.lastCas.Store(time.Now())
 	owner := renewalOwner()
+	if n == atomic.LoadInt32(&s.holdAt) && s.resume != nil && s.holdApplied {
+		res, err := s.Storage.CasByVersion(ctx, r)
+		close(s.reached)
+		<-s.resume
+		return res, err
+	}
 	if n == atomic.LoadInt32(&s.holdAt) && s.resume != nil {
 		close(s.reached)
 		<-s.resume
@@ -218,6 +226,53 @@ func rtAdoptScenario(lease time.Duration) rtResult {
 	return res
 }
 
+// rtRelockScenario: a renewal of the holder's first tenure has been APPLIED by the storage but its answer is
+// still on the way when the holder unlocks and at once locks again through the SAME Locker; then the answer
+// arrives.  The second tenure (holder alive, storage answering) must keep its lease: for three lease periods
+// the record exists and a third party cannot acquire.
+func rtRelockScenario(lease time.Duration) rtResult {
+	res := rtResult{name: fmt.Sprintf("relock lease=%v", lease)}
+	st := &rtStore{Storage: inmem.New(), holdAt: 1, holdApplied: true, reached: make(chan struct{}), resume: make(chan struct{})}
+	pa := dist.NewKvsLockProvider(st, "/rt/")
+	pt := dist.NewKvsLockProvider(st, "/rt/")
+	dist.VerifSetLease(pa, lease)
+	dist.VerifSetLease(pt, lease)
+	defer pa.Shutdown()
+	defer pt.Shutdown()
+	a := pa.NewLocker("l")
+	third := pt.NewLocker("l").(tryLocker)
+	a.Lock()
+	select {
+	case <-st.reached:
+	case <-time.After(3 * lease):
+		res.bad = "no renewal was issued within 3 lease periods"
+		close(st.resume)
+		a.Unlock()
+		return res
+	}
+	a.Unlock()
+	a.Lock()
+	t2 := time.Now()
+	close(st.resume) // the answer of the first tenure's renewal arrives now
+	bg := context.Background()
+	end := t2.Add(3 * lease)
+	for time.Now().Before(end) {
+		if third.TryLock(bg) {
+			res.bad = fmt.Sprintf("a third Locker acquired the lock %v after the holder's second acquisition while it was held (holder alive, storage answering)", time.Since(t2).Round(time.Millisecond))
+			third.Unlock()
+			break
+		}
+		if it, err := st.ListKeys(bg, "*"); err == nil && !it.HasNext() {
+			res.bad = fmt.Sprintf("the record of the held lock is gone %v after it was acquired (lease %v): the answer of the previous tenure's renewal arrived after the re-lock", time.Since(t2).Round(time.Millisecond), lease)
+			break
+		}
+		time.Sleep(lease / 40)
+	}
+	res.info = fmt.Sprintf("renewals=%d ok=%d", atomic.LoadInt32(&st.casCalls), atomic.LoadInt32(&st.casOK))
+	a.Unlock()
+	return res
+}
+
 // rtHandoverScenario: the contender waits behind the holder for `waitLeases` lease periods (the holder is
 // alive and renewing, or dead from the start), acquires, and then HOLDS for two lease periods: its record must
 // be there all the time and nobody else may get the lock — the lease of a lock obtained after a long wait is as
@@ -350,6 +405,23 @@ func runLockRT(ctx *Ctx) {
 			ctx.R.Stats.Notes = append(ctx.R.Stats.Notes, "timing flake discarded: "+ra.name+": "+ra.bad)
 			ra.bad = ""
 		}
+	}
+	// Unlock + Lock on the same Locker while the answer of an applied renewal is on the way
+	rr := rtRelockScenario(lease)
+	if rr.bad != "" {
+		if r2 := rtRelockScenario(2 * lease); r2.bad == "" {
+			ctx.R.Stats.Notes = append(ctx.R.Stats.Notes, "timing flake discarded: "+rr.name+": "+rr.bad)
+			rr.bad = ""
+		} else {
+			rr.bad = r2.bad
+		}
+	}
+	ctx.R.Case("realtime")
+	ctx.R.Nontrivial("relock")
+	ctx.R.Op("scenario relock-1", "ok")
+	ctx.R.Comment(rr.name + ": " + rr.info)
+	if rr.bad != "" {
+		ctx.R.Quiet("mon C05-lease-kept-while-held", rr.name+": "+rr.bad)
 	}
 	ctx.R.Case("realtime")
 	ctx.R.Nontrivial("adopt")
